@@ -1,2 +1,2 @@
-prop('C07', [dict(name='storage', quick=300, thorough=4000, timeout=900)],
+prop('C07', [dict(name='storage', quick=300, thorough=4000, timeout=900, extra=['minfill=1'])],
      level_text='placeholder', level_note='placeholder', technique='Lean 4 proof + differential check', rule='placeholder', trusted_base=[], assumptions=[])
